@@ -325,7 +325,12 @@ def run(ctx: Ctx):
                         elif hc:
                             other.append('history.added_error')
                     store_phase = kind in ('grid_set', 'grid_impute', 'interp_refine')
-                    if (not hist_same_choices or other) and store_phase and any(d.endswith('.costs') for d in diffs):
+                    # ... but the cost accounts cannot explain a component that is never initialised, or initialisation steps that differ
+                    ninit_ = sum(1 for h in ref['history'] if h['added_error'] != h['added_error'])
+                    init_same = [(h['component'], h['alpha'], h['beta']) for h in st['history'][:ninit_]] == \
+                                [(h['component'], h['alpha'], h['beta']) for h in ref['history'][:ninit_]]
+                    all_initialised = all(bool(st['components'][c_]['active']) == bool(ref['components'][c_]['active']) for c_ in ref['components'])
+                    if (not hist_same_choices or other) and store_phase and any(d.endswith('.costs') for d in diffs) and init_same and all_initialised:
                         # recorded finding F5a and its consequence: indices whose data were stored before the interruption are charged fewer
                         # evaluations on resume; the refinement criterion divides by that cost, so later choices may follow the changed accounts.
                         # What the saved state must still satisfy (loads, invariants, truthful data, resumes, finite predictions) was checked above.
